@@ -33,6 +33,9 @@ pub fn gen(o: &Opts, sink: &mut dyn FnMut(Vec<i64>, String)) {
                     c.extend(f); }
             }
             c.push(2);
+            // now and then a remote-transmission-request / error-flagged frame from somebody else right after
+            // (flags in can_id bits 30 / 29): it must be handled like any other foreign frame, not replay the last one
+            if rng.chance(1, 5) { let mut f = c10::foreign(&mut rng); f[1] |= if rng.chance(2, 3) { 0x4000_0000 } else { 0x2000_0000 }; c.extend(f); c.push(2); }
         }
         sink(c, String::new());
     }
